@@ -48,7 +48,7 @@ def playback(prop, r, group):
     """Re-run the failing harness with --concrete-playback=inplace on the build copy, then execute the
     generated test natively."""
     spec = r["spec"]
-    res = kanirun.run_job(group, r["harness"], mode=spec.mode, timeout_s=spec.timeout * 2, mem_gb=spec.mem,
+    res = kanirun.run_job(group, r["harness"], mode=spec.mode, timeout_s=spec.timeout * 2, mem_gb=spec.mem, fs=spec.fs,
                           extra=["-Z", "concrete-playback", "--concrete-playback=inplace"])
     tests = re.findall(r"- (kani_concrete_playback_\w+)", res.get("log_tail", "") or "")
     if not tests:
@@ -86,7 +86,7 @@ def playback(prop, r, group):
 def native(prop, r, group, recipe, seed):
     spec = r["spec"]
     if spec.schema:
-        res = kanirun.run_job(group, r["harness"], mode=spec.mode, timeout_s=spec.timeout * 2, mem_gb=spec.mem,
+        res = kanirun.run_job(group, r["harness"], mode=spec.mode, timeout_s=spec.timeout * 2, mem_gb=spec.mem, fs=spec.fs,
                               playback=True)
         vals = res.get("playback_vals")
         if not vals:
